@@ -126,15 +126,15 @@ Proof.
   assert (Hcast : cast U32 claimed = claimed).
   { unfold cast, U32. apply N.mod_small. lia. }
   rewrite Hcast in Hadd.
-  assert (Hnl : add_m md U32 claimed (t_len s) = Some (claimed + t_len s)).
-  { unfold add_m, U32. rewrite Hlen. destruct (N.ltb_spec (claimed + N.of_nat (length (tbl_image s))) (2 ^ 32)); [reflexivity|lia]. }
+  assert (Hnl : add_c U32 claimed (t_len s) = Some (claimed + t_len s)).
+  { unfold add_m, add_c, U32. rewrite Hlen. destruct (N.ltb_spec (claimed + N.of_nat (length (tbl_image s))) (2 ^ 32)); [reflexivity|lia]. }
   rewrite Hnl in Hadd. cbn [option_bind] in Hadd.
   assert (Ecnt : (match t_kind s with
             | KViot => Some ((t_cnt s + 1) mod U16)
             | KRhct => add_m md U32 (t_cnt s) 1
             | _ => Some (t_cnt s + 1) end) = Some (t_cnt s + 1)).
   { unfold kind_fits in Hkf. destruct (t_kind s); try reflexivity.
-    - unfold add_m, U32. rewrite Hcnt. destruct (N.ltb_spec (N.of_nat (length (t_ents s)) + 1) (2 ^ 32)); [reflexivity|lia].
+    - unfold add_m, add_c, U32. rewrite Hcnt. destruct (N.ltb_spec (N.of_nat (length (t_ents s)) + 1) (2 ^ 32)); [reflexivity|lia].
     - unfold U16. rewrite Hcnt. rewrite N.mod_small by lia. reflexivity. }
   rewrite Ecnt in Hadd. cbn [option_bind] in Hadd.
   assert (Ehoff : (match t_kind s with
@@ -146,8 +146,8 @@ Proof.
             | KPptt | KRhct => add_m md U32 (t_hoff s) claimed
             | _ => Some (t_hoff s + claimed) end) = None).
   { unfold kind_fits in Hkf. destruct (t_kind s); try (left; reflexivity).
-    - left. unfold add_m, U32. rewrite Hhoff. destruct (N.ltb_spec (N.of_nat (length (tbl_image s)) + claimed) (2 ^ 32)); [reflexivity|lia].
-    - left. unfold add_m, U32. rewrite Hhoff. destruct (N.ltb_spec (N.of_nat (length (tbl_image s)) + claimed) (2 ^ 32)); [reflexivity|lia].
+    - left. unfold add_m, add_c, U32. rewrite Hhoff. destruct (N.ltb_spec (N.of_nat (length (tbl_image s)) + claimed) (2 ^ 32)); [reflexivity|lia].
+    - left. unfold add_m, add_c, U32. rewrite Hhoff. destruct (N.ltb_spec (N.of_nat (length (tbl_image s)) + claimed) (2 ^ 32)); [reflexivity|lia].
     - unfold add_c, cast, U16. rewrite (N.mod_small claimed) by lia.
       destruct (t_hoff s + claimed <? 2 ^ 16); [left|right]; reflexivity. }
   destruct Ehoff as [Ehoff|Ehoff]; rewrite Ehoff in Hadd; [|discriminate].
@@ -224,7 +224,7 @@ Section AddTable.
     destruct (tbl_add md s (a_style e) (a_claimed e) (a_bytes e)) as [[s1 h]|] eqn:E; [|discriminate].
     cbn [option_bind fst snd] in H. inversion H; subst; clear H.
     unfold tbl_add in E.
-    destruct (add_m md U32 (cast U32 (a_claimed e)) (t_len s)); [|discriminate]. cbn [option_bind] in E.
+    destruct (add_c U32 (cast U32 (a_claimed e)) (t_len s)); [|discriminate]. cbn [option_bind] in E.
     destruct (match t_kind s with KViot => _ | KRhct => _ | _ => _ end); [|discriminate]. cbn [option_bind] in E.
     destruct (match t_kind s with KViot => _ | KPptt | KRhct => _ | _ => _ end); [|discriminate]. cbn [option_bind] in E.
     inversion E; subst; clear E. unfold set_flag. cbn [t_hdr]. split; [exact Hh|].
@@ -273,7 +273,7 @@ Section AddTable.
     assert (Hs1 : length (tbl_image s1) = (length (tbl_image s) + length (a_bytes e))%nat /\
                   (t_kind s = KViot -> t_hoff s + a_claimed e < 2 ^ 16)).
     { unfold tbl_add in E.
-      destruct (add_m md U32 (cast U32 (a_claimed e)) (t_len s)); [|discriminate]. cbn [option_bind] in E.
+      destruct (add_c U32 (cast U32 (a_claimed e)) (t_len s)); [|discriminate]. cbn [option_bind] in E.
       destruct (match t_kind s with KViot => _ | KRhct => _ | _ => _ end); [|discriminate]. cbn [option_bind] in E.
       destruct (match t_kind s with KViot => _ | KPptt | KRhct => _ | _ => _ end) eqn:Eh; [|discriminate]. cbn [option_bind] in E.
       inversion E; subst; clear E. split.
